@@ -14,7 +14,7 @@ from bctmc.tally import Tally
 
 PROPERTY = 'C10'
 RULE = ('all 0/1 digraphs n<=4 and graphs n<=5 for the weighted/binary pairs; all symmetric matrices over {0,1/8,1} on 4 '
-        'nodes (and the binary graphs) for the directed/undirected pairs; weighted matrices over {0,1/8,1} (sym n=4, dir '
+        'nodes (and the binary graphs) for the directed/undirected pairs; weighted matrices over {0,1/8,1} (sym n=4, dir n=3) and signed {-1,0,1} (sym n=5, weights that cancel) (dir '
         'n=3) vs their binarisation for the weight-ignoring routines (quick also: all 6-node graphs for the distance/betweenness/efficiency pairs; thorough: und n=6 all pairs, sym weighted n=5, dir weighted '
         'n=4); non-trivial = input with unequal degrees and a triangle or an unreachable pair')
 ASSUMPTIONS = ['float64 inputs with empty diagonal',
@@ -28,6 +28,7 @@ FAMILIES = {
     'bin_dir3': ('d', 3, BIN, 'q'), 'bin_dir4': ('d', 4, BIN, 'q'),
     'bin_und4': ('u', 4, BIN, 'q'), 'bin_und5': ('u', 5, BIN, 'q'),
     'wt_und4': ('u', 4, WT, 'q'), 'wt_dir3': ('d', 3, WT, 'q'),
+    'sg_und5': ('u', 5, (-1, 0, 1), 'q'), 'sg_dir3': ('d', 3, (-1, 0, 1, 2), 'q'),   # signed: weights can cancel
     'bin_und6_paths': ('u', 6, BIN, 'q'),   # path-based pairs only (quick); everything in thorough
     'bin_und6': ('u', 6, BIN, 't'), 'wt_und5': ('u', 5, WT, 't'), 'wt_dir4': ('d', 4, WT, 't'),
 }
@@ -120,10 +121,16 @@ def symmetric_pairs(t, X, case, binary):
     pair(t, lab, case, F('density_dir[kden]', lambda A: bct.density_dir(A)[0]), F('density_und[kden]', lambda A: bct.density_und(A)[0]), X)
 
 
-def ignore_weights(t, X, case, directed):
+def ignore_weights(t, X, case, directed, signed=False):
     lab = 'weights_ignored'
     B = (X != 0).astype(float)
     names = ['breadthdist', 'reachdist']
+    if signed:
+        names += ['degrees_dir', 'density_dir'] if directed else ['degrees_und', 'density_und', 'get_components']
+        for nm in names:
+            pair(t, lab, case, F(nm + '(W)', getattr(bct, nm)), F(nm + '(binarised W)', getattr(bct, nm)), X, B)
+        pair(t, lab, case, F('distance_bin(W)', bct.distance_bin), F('distance_bin(binarised W)', bct.distance_bin), X, B)
+        return
     names += ['degrees_dir', 'density_dir', 'edge_nei_overlap_bd'] if directed else \
         ['degrees_und', 'density_und', 'edge_nei_overlap_bu', 'get_components']
     for nm in names:
@@ -149,9 +156,9 @@ def check_case(t, name, X, case):
         if not directed and not name.endswith('_paths'):
             symmetric_pairs(t, X, case, True)
     else:
-        if not directed:
+        if not directed and not name.startswith('sg_'):
             symmetric_pairs(t, X, case, False)
-        ignore_weights(t, X, case, directed)
+        ignore_weights(t, X, case, directed, signed=name.startswith('sg_'))
     A = (X != 0)
     S = A | A.T
     deg = S.sum(axis=1)
